@@ -23,30 +23,40 @@ WALL_PER_RUN = 60.0
 MAX_CALLS = 40000        # a run is also ended (like at the virtual deadline) after this many calls of the poll thread
 
 META = {
-    'level_text': 'Theorems over the Lean model of the poll thread body (Timed/Poller.lean), all proved in full: errors_contained '
-                  '(successor state and call list of a turn independent of every outcome, every environment), nopoll_never_read '
-                  '(the monitor clause NoPollNeverRead for every trace of prologue + any number of turns, every environment), '
-                  'interval_change_triggers / _wakes / _next_wakeup (every environment), due_polled_this_turn, not_due_not_polled, '
-                  'main_gap_bound (consecutive doPoll starts <= max(I,D) + (n-1)(D+E) + D + 2E <= interval + one sweep, any n, any '
-                  'intervals) and slow_refresh_bound(_thread) (clock <= latest refresh + 1.5*slow + (2N+2)*sweep + 2) for quiet '
-                  '(other threads only trigger) environments with durations <= D and clock steps <= E.  The model is tied to '
-                  'frappy/modulebase.py by replaying every recorded environment of the real _Module__pollThread (virtual time) through '
-                  'the Lean `turn` and comparing the call lists; the Lean monitors check the full bounds, incl. run-time interval '
-                  'changes, on every implementation trace.',
+    'level_text': 'Theorems over the Lean model of the poll thread body (Timed/Poller.lean) and of the poll flag computation '
+                  '(Timed/PollFlags.lean), all proved in full: errors_contained (successor state and call list of a turn independent '
+                  'of every outcome, every environment), nopoll_never_read (the monitor clause NoPollNeverRead for every trace of '
+                  'prologue + any number of turns, every environment), poll_flags_mark / polled_is_mayPoll (the flag the thread tests is '
+                  'set exactly for parameters not marked as not polled, every kind of declaration), interval_change_triggers / _wakes / '
+                  '_next_wakeup / _not_lost / _in_window (every environment, incl. actions between wait and clear), '
+                  'interval_follows_commands (PollInfo.interval = the interval the module was told, every sequence of actions), '
+                  'due_polled_this_turn, not_due_not_polled, main_gap_bound (consecutive doPoll starts <= max(I,D) + (n-1)(D+E) + D + 2E '
+                  '<= interval + one sweep), main_gap_bound_spec (the monitor clause MainGapBoundS itself on the model trace), '
+                  'interval_change_takes_effect (after arbitrary actions of other threads: first start <= max(last_main + new interval, '
+                  'moment of change) + sweep, later gaps <= new interval + sweep), slow_refresh_bound(_thread) (clock <= latest refresh + '
+                  '1.5*slow + (2N+2)*sweep + 2) and bounds_from_thread_start (both bounds from the state PollInfo.__init__ leaves) for '
+                  'quiet environments with durations <= D and clock steps <= E.  The model is tied to frappy/modulebase.py and '
+                  'frappy/rwhandler.py by replaying every recorded environment of the real _Module__pollThread (virtual time, other '
+                  'threads acting inside poll functions, inside waits, at the entry of wait and of clear) through the Lean `turn` and '
+                  'comparing the call lists, and by comparing the real poll flags with the model; the Lean monitors check the full '
+                  'bounds, incl. run-time interval changes judged against the commands given, on every implementation trace.',
     'level_note': 'Trusted: Lean kernel + axioms propext/Classical.choice/Quot.sound; vlib.sched virtual clock (1 tick = 2^-10 s, '
                   'all intervals/durations multiples of it so that the float arithmetic of the loop is exact); the ghost fields '
-                  'lastStart/refreshed of the model (pinned by refreshed_is_a_refresh); interval changes during a run are covered '
-                  'per step and by the monitor, not by the two run-level bounds (hypothesis Quiet); OS scheduling latency and the '
-                  'GIL are outside the model.',
+                  'lastStart/refreshed of the model (pinned by refreshed_is_a_refresh); the run-level bounds assume a quiet stretch '
+                  '(after any actions: interval_change_takes_effect), runs with changes at several moments are covered per stretch and '
+                  'by the monitor; the refresh bound is not proved as the Spec clause on traceOf; OS scheduling latency and the GIL are '
+                  'outside the model.',
     'trusted': [
         'virtual time: every clock read advances by >= 1 tick; durations are those the fake drivers sleep on the patched clock',
-        'instrumentation: mobj.callPollFunc / writeInitParams / triggerPoll.wait are wrapped on the instances (the originals run inside)',
+        'instrumentation: mobj.callPollFunc / writeInitParams / triggerPoll.wait / triggerPoll.clear are wrapped on the instances (the originals run inside)',
+        'the recipe of the generated classes (decls_of: how each read function is declared; enablePoll) as reported to the judge',
         'BaseException (SystemExit, KeyboardInterrupt) is deliberately not contained by callPollFunc and is outside the statement',
     ],
     'modelled_not_verified': [
         'announceUpdate (time stamps are taken from the real objects after every call and fed to the model as environment)',
-        'read wrappers / accessLock, logging',
+        'accessLock, logging, the bodies of the read wrappers (only their poll flag is modelled)',
         'IOBase.callCallbacks (the reconnect callback trigger_all is invoked through it)',
+        'actions of other threads after clear() returned and before the next clock read, and between modules of a sweep without a call (no slot in the model, not generated)',
     ],
     'assumptions': ['slowinterval > 0 (datatype FloatRange(0.1, 120)); poll intervals >= 0',
                     'time stamps given to parameters are not in the future'],
